@@ -567,9 +567,11 @@ func triggerData(w *World, v Violation) string {
 	}
 	// resend-of-held-resource: the gateway disposed and re-sent a resource that the
 	// client never stopped holding; a protocol-following client keeps its own copy
-	if v.Class == "diverged" {
+	if v.Class == "diverged" || v.Class == "index_out_of_bounds" {
+		// (an index event computed against the re-sent copy does not fit the older
+		// copy the client kept)
 		for _, h := range c.Ref.Handovers {
-			if h.RID == v.RID && !h.Fresh && h.Differs {
+			if h.RID == v.RID && !h.Fresh && h.Differs && (v.Class == "diverged" || h.T < v.T) {
 				return "resend-of-held-resource"
 			}
 		}
